@@ -65,18 +65,24 @@ fn main() {
             let mut rng = Rng::new(prng::mix(&[0xD1FF3, i]));
             let mut doc = String::new();
             let mut stack = vec![];
-            for _ in 0..rng.urange(2, 14) {
-                if !stack.is_empty() && rng.chance(1, 4) { let t: &str = stack.pop().unwrap(); doc.push_str(&format!("</{}>", t)); }
-                let t = rng.pick(&["div", "div", "span", "b", "i"]);
+            let deep = args[3] == "deep";
+            let (lo, hi, close_den) = if deep { (18, 45, 12) } else { (2, 14, 4) };
+            for _ in 0..rng.urange(lo, hi) {
+                if !stack.is_empty() && rng.chance(1, close_den) { let t: &str = stack.pop().unwrap(); doc.push_str(&format!("</{}>", t)); }
+                let t = if deep { rng.pick(&["div", "div", "div", "div", "span"]) } else { rng.pick(&["div", "div", "span", "b", "i"]) };
                 match rng.below(4) { 0 => doc.push_str(&format!("<{}>", t)), 1 => doc.push_str(&format!("<{} class=a>", t)), 2 => doc.push_str(&format!("<{} class=b>", t)), _ => doc.push_str(&format!("<{} class='a b'>", t)) }
                 stack.push(t);
                 doc.push_str(rng.pick(&["x", "y ", "", "z"]));
             }
             let mut sheet = String::new();
             for _ in 0..rng.urange(1, 3) {
-                let steps = rng.urange(1, 7);
+                let steps = if deep { rng.urange(3, 12) } else { rng.urange(1, 7) };
                 for k in 0..steps {
                     if k > 0 { sheet.push_str(rng.pick(&[" ", " > "])); }
+                    if deep {
+                        sheet.push_str(rng.pick(&["div", "div", "div", "span", "*", "*", ".a", ".b", "div.a", ":nth-child(1)"]));
+                        continue;
+                    }
                     sheet.push_str(rng.pick(&["div", "span", "b", "i", ".a", ".b", "*", "div.a", "span.b", ".a.b", ":nth-child(1)", "div:nth-child(2n+1)"]));
                 }
                 sheet.push_str(" { display: none; }\n");
